@@ -39,6 +39,13 @@ inductive Op2
   | rename
   | renamenx
   | rpoplpush
+  /-- `LMOVE src dst LEFT|RIGHT LEFT|RIGHT` (`fromLeft`, `toLeft`); RPOPLPUSH = `lmove false true` -/
+  | lmove (fromLeft toLeft : Bool)
+  /-- `SORT src STORE dst` (the executor's stub: bytewise order, lists only here) -/
+  | sortStore
+  /-- `EVAL "if redis.call('EXISTS', KEYS[1]) == 1 then redis.call('SET', KEYS[2], ARGV[1]) return 1
+      else return 0 end" 2 src dst v` — a two-key script, routed by `KEYS[1]` -/
+  | evalSetIfExists (v : Bytes)
   deriving DecidableEq, Repr
 
 def sig : Sig := { Val := SVal, Op := Op1, Op2 := Op2, Pat := Bytes }
@@ -175,6 +182,45 @@ def exec1 (s : St) (k : Key) (op : Op1) : St × Reply :=
   let r := slot1 op (NMap.get s k)
   (put s k r.1, r.2)
 
+/-- bytewise lexicographic `≤` (`<[u8]>::cmp`) -/
+def lexLe : List Nat → List Nat → Bool
+  | [], _ => true
+  | _ :: _, [] => false
+  | a :: as, b :: bs => if a < b then true else if b < a then false else lexLe as bs
+
+def insertSorted (x : Bytes) : List Bytes → List Bytes
+  | [] => [x]
+  | y :: ys => if lexLe x y then x :: y :: ys else y :: insertSorted x ys
+
+def sortBytes (l : List Bytes) : List Bytes := l.foldr insertSorted []
+
+/-- pop / push ends of LMOVE -/
+def popEnd (fromLeft : Bool) (l : List Bytes) : Option (Bytes × List Bytes) :=
+  if fromLeft then (match l with | [] => none | x :: r => some (x, r))
+  else (match l.getLast? with | none => none | some x => some (x, l.dropLast))
+
+def pushEnd (toLeft : Bool) (x : Bytes) (d : List Bytes) : List Bytes := if toLeft then x :: d else d ++ [x]
+
+/-- RPOPLPUSH / LMOVE: the destination type is checked BEFORE the pop when the source is a list
+    (since the `fix:` commit for C17:error-mutates) -/
+def moveSlot (fromLeft toLeft same : Bool) (oa ob : Option SVal) : Option SVal × Option SVal × Reply :=
+  match oa with
+  | none => (oa, ob, .one .nil)
+  | some (.str _) => (oa, ob, wrongType)
+  | some (.list l) =>
+    match ob with
+    | some (.str _) => (oa, ob, wrongType)
+    | _ =>
+      match popEnd fromLeft l with
+      | none => (oa, ob, .one .nil)
+      | some (x, rest) =>
+        let na := if rest.isEmpty then none else some (SVal.list rest)
+        let ob' := if same then na else ob
+        match ob' with
+        | none => (na, some (.list [x]), .one (.bulk x))
+        | some (.list d) => (na, some (.list (pushEnd toLeft x d)), .one (.bulk x))
+        | some (.str _) => (na, ob', wrongType)
+
 /-- the slot-level meaning of a two-key command as the real executor runs it on ONE store:
     (same key?, old source slot, old destination slot) ↦ (new source slot, new destination slot,
     reply).  The destination is written last. -/
@@ -188,25 +234,17 @@ def slot2 (op : Op2) (same : Bool) (oa ob : Option SVal) : Option SVal × Option
     match oa with
     | none => (oa, ob, .one (.err errNoSuchKey))
     | some v => if ob.isSome then (oa, ob, .one (.int 0)) else (none, some v, .one (.int 1))
-  | .rpoplpush =>
+  | .rpoplpush => moveSlot false true same oa ob
+  | .lmove fl tl => moveSlot fl tl same oa ob
+  | .sortStore =>
     match oa with
-    | none => (oa, ob, .one .nil)
     | some (.str _) => (oa, ob, wrongType)
+    | none => (oa, none, .one (.int 0))
     | some (.list l) =>
-      -- since the `fix:` commit for C17:error-mutates:RPOPLPUSH:wrongtype the destination type
-      -- is checked BEFORE the pop when the source is a list
-      match ob with
-      | some (.str _) => (oa, ob, wrongType)
-      | _ =>
-        match l.getLast? with
-        | none => (oa, ob, .one .nil)
-        | some x =>
-          let na := if l.dropLast.isEmpty then none else some (SVal.list l.dropLast)
-          let ob' := if same then na else ob
-          match ob' with
-          | none => (na, some (.list [x]), .one (.bulk x))
-          | some (.list d) => (na, some (.list (x :: d)), .one (.bulk x))
-          | some (.str _) => (na, ob', wrongType)
+      if (sortBytes l).isEmpty then (oa, none, .one (.int 0))
+      else (oa, some (.list (sortBytes l)), .one (.int (sortBytes l).length))
+  | .evalSetIfExists v =>
+    if oa.isSome then (oa, some (.str v), .one (.int 1)) else (oa, ob, .one (.int 0))
 
 def exec2 (s : St) (k1 k2 : Key) (op : Op2) : St × Reply :=
   let r := slot2 op (k1 == k2) (NMap.get s k1) (NMap.get s k2)
